@@ -183,9 +183,23 @@ def run(res, tier, seed):
         try:
             r = impl.open_reader(fmt, l1b.build_file(fmt, sc, start, lines), adjust_clock_drift=False)
             ch = r.get_calibrated_channels()
+            # the reflectance depends on the count, the spacecraft and the date only: asking the same reader again (after
+            # the counts and a dataset were requested in between) must give the same values
+            r.get_counts()
+            again = r.get_calibrated_channels()
+            ds_again = r.get_calibrated_dataset()["channels"].values
+            third = r.get_calibrated_channels()
         except Exception as e:  # noqa
             res.violations.append(("pipeline raised %r" % (e,), dict(fmt=fmt, spacecraft=sc)))
             continue
+        for label, arr in (("second get_calibrated_channels()", again), ("get_calibrated_dataset() after two calibrations", ds_again),
+                           ("third get_calibrated_channels()", third)):
+            if not impl.nan_eq(arr, ch):
+                dif = np.argwhere(~((arr == ch) | (np.isnan(arr) & np.isnan(ch)))) if arr.shape == ch.shape else []
+                res.violations.append(("reflectances of a repeated request on the same reader differ from the first (not a function of count, spacecraft, date)",
+                                       dict(fmt=fmt, spacecraft=sc, start=str(start), request=label, differing_values=int(len(dif)),
+                                            first=[int(x) for x in dif[0]] if len(dif) else None)))
+                break
         year, jday = start.year, (start.date() - datetime.date(start.year, 1, 1)).days + 1
         corr = esd(jday)
         co = raw[sc]
